@@ -201,7 +201,7 @@ def probe_runs(ctx, r, quick):
                 # GlobalAlloc glue that depends on WHO holds the allocator lock is taken all the time
                 kind, foreign, order = "contended", 0, wi % 2
                 items = [(16384, 8)] if wi == nw else [(16384, 8), (48, 8), (700, 16), (16384, 64)]
-                threads, rounds, reps = 12, (6 if quick else 12), (5000 if quick else 60000) // len(items)
+                threads, rounds, reps = 12, (8 if quick else 12), (4000 if quick else 60000) // len(items)
             script = ("".join("b %d %d\n" % it for it in items) +
                       "order %d\nrounds %d\nthreads %d\nreps %d\nforeign %d\ngo\n" % (order, rounds, threads, reps, foreign))
             p = None
@@ -235,6 +235,10 @@ def probe_runs(ctx, r, quick):
                         records, best = records + 1, v
                 if records > (rounds - rounds // 2) // 2:
                     sig, why = "vmsize-keeps-growing", "VmSize set a new record in %d of the last %d rounds" % (records, rounds - rounds // 2)
+                elif kind == "contended" and vm[-1] - vm[0] > demand + (512 << 10):
+                    # every thread frees all it allocated within one repetition: after the first round (which sizes the heap
+                    # for `threads` simultaneous repetitions) the mapped size has no reason to move at all
+                    sig, why = "vmsize-keeps-growing", "contended workload: VmSize grew by %d from the first to the last round (demand of all threads together %d)" % (vm[-1] - vm[0], demand)
                 elif max(vm) - vm[0] > 3 * demand + (16 << 20):
                     sig, why = "vmsize-exceeds-demand", "VmSize grew by %d, more than 3 x demand %d + 16 MiB" % (max(vm) - vm[0], demand)
             if sig:
